@@ -1014,7 +1014,8 @@ where
     let strat = if cfg.mode == Mode::Token {
         let mut srng = Rng::new(cfg.sseed);
         let s = match srng.below(8) {
-            0..=3 => Strat::Random { sw: *srng.pick(&[1, 2, 4, 8, 12, 16]) },
+            0..=1 => Strat::Random { sw: *srng.pick(&[1, 2, 4, 8, 12, 16]) },
+            2..=3 => Strat::Windows { p_in: *srng.pick(&[8, 12, 16]), p_out: *srng.pick(&[0, 1, 2]) },
             4..=5 => Strat::Pct { d: srng.range(1, 3) as u32, horizon: (nt * p.ops_hi * 25) as u64 },
             _ => {
                 let readers: Vec<usize> = plans.iter().filter(|x| x.1 != 1).map(|x| x.0).collect();
